@@ -173,19 +173,17 @@ forward_ref!(DerUint);
 fn from_der_slice<const BITS: usize, const LIMBS: usize>(
     bytes: &[u8],
 ) -> Result<Uint<BITS, LIMBS>> {
+    #[cfg(feature = "recmo_uint_verif")]
+    match bytes {
+        [0, byte, ..] if *byte < 0x80 => crate::verif_hooks::hit(173),
+        [0, ..] => crate::verif_hooks::hit(172),
+        _ => {}
+    }
     // Handle sign bits and zero-prefix.
     let bytes = match bytes {
         [] => Err(Tag::Integer.length_error()),
-        [0, byte, ..] if *byte < 0x80 => {
-            #[cfg(feature = "recmo_uint_verif")]
-            crate::verif_hooks::hit(173);
-            Err(Tag::Integer.non_canonical_error())
-        }
-        [0, rest @ ..] => {
-            #[cfg(feature = "recmo_uint_verif")]
-            crate::verif_hooks::hit(172);
-            Ok(rest)
-        }
+        [0, byte, ..] if *byte < 0x80 => Err(Tag::Integer.non_canonical_error()),
+        [0, rest @ ..] => Ok(rest),
         [byte, ..] if *byte >= 0x80 => Err(Tag::Integer.value_error()),
         bytes => Ok(bytes),
     }?;
